@@ -130,6 +130,37 @@ impl TypeContainer {
         let t = T::ty();
         self.go(&t)
     }
+    // A memoized type is bound as it is, and it can mention knots of types that were
+    // being derived when it was first computed and that are not reachable otherwise:
+    // bind those too, so that the environment is closed.
+    fn bind_knots(&mut self, t: &Type) {
+        match t.as_ref() {
+            TypeInner::Knot(id) => {
+                let name = id.to_string();
+                if !self.env.0.contains_key(&name) {
+                    let ty = ENV.with(|e| e.borrow().get(id).unwrap().clone());
+                    self.env.0.insert(name.clone(), ty.clone());
+                    self.remember_named_doc(id, &name);
+                    self.bind_knots(&ty);
+                }
+            }
+            TypeInner::Opt(t) | TypeInner::Vec(t) => self.bind_knots(t),
+            TypeInner::Record(fs) | TypeInner::Variant(fs) => {
+                fs.iter().for_each(|f| self.bind_knots(&f.ty))
+            }
+            TypeInner::Func(func) => func
+                .args
+                .iter()
+                .chain(func.rets.iter())
+                .for_each(|t| self.bind_knots(t)),
+            TypeInner::Service(serv) => serv.iter().for_each(|(_, t)| self.bind_knots(t)),
+            TypeInner::Class(inits, t) => {
+                inits.iter().for_each(|t| self.bind_knots(t));
+                self.bind_knots(t)
+            }
+            _ => (),
+        }
+    }
     fn go(&mut self, t: &Type) -> Type {
         match t.as_ref() {
             TypeInner::Opt(t) => TypeInner::Opt(self.go(t)),
@@ -182,8 +213,9 @@ impl TypeContainer {
             TypeInner::Knot(id) => {
                 let name = id.to_string();
                 let ty = ENV.with(|e| e.borrow().get(id).unwrap().clone());
-                self.env.0.insert(id.to_string(), ty);
+                self.env.0.insert(id.to_string(), ty.clone());
                 self.remember_named_doc(id, &name);
+                self.bind_knots(&ty);
                 TypeInner::Var(name)
             }
             TypeInner::Func(func) => TypeInner::Func(Function {
